@@ -143,11 +143,29 @@ def _anchors(pattern: str, flags: int) -> T.Tuple[bool, bool]:
     return tail, head
 
 
+def _path_outcome(p: T.Any, subst: T.Callable[[ast.AST], ast.AST]) -> T.Tuple[T.Any, ...]:
+    """Like tables.default_outcome, but a returned local (`result = X ... return result`) is replaced by the value of
+    its reaching definition on this path (single-exit style <-> early returns)."""
+    if p.outcome == 'return' and isinstance(p.value, ast.Name):
+        name = p.value.id
+        for ev in reversed(p.events):
+            st = ev.node
+            if ev.kind != 'stmt' or st is None:
+                continue
+            if isinstance(st, ast.Assign) and any(isinstance(t, ast.Name) and t.id == name for t in st.targets):
+                return ('return', norm(subst(st.value)))
+            if isinstance(st, ast.AnnAssign) and isinstance(st.target, ast.Name) and st.target.id == name and st.value is not None:
+                return ('return', norm(subst(st.value)))
+            if any(isinstance(n, ast.Name) and n.id == name and isinstance(n.ctx, (ast.Store, ast.Del)) for n in ast.walk(st)):
+                break
+    return tables.default_outcome(p, subst)
+
+
 def r2(ctx: RuleCtx) -> None:
     # (a) order of the classification chain, on every world of its atoms
     mod, cdef, fn = _resolve(ctx, CLIKE, 'CLikeCompilerArgs', '_can_dedup')
     qn = f'{cdef.name}._can_dedup'
-    tab = tables.extract(fn, name=qn, pure={'search'})
+    tab = tables.extract(fn, name=qn, pure={'search'}, outcome=_path_outcome)
     tests: T.Dict[Atom, ArgTest] = {}
     for a in tab.atoms():
         t = _arg_test(a)
@@ -195,7 +213,7 @@ def r2(ctx: RuleCtx) -> None:
     # (b) _should_prepend is equivalent to "starts with an entry of prepend_prefixes", on every world of its atoms
     pmod, pcdef, pfn = _resolve(ctx, CLIKE, 'CLikeCompilerArgs', '_should_prepend')
     pqn = f'{pcdef.name}._should_prepend'
-    ptab = tables.extract(pfn, name=pqn)
+    ptab = tables.extract(pfn, name=pqn, outcome=_path_outcome)
     ptests: T.Dict[Atom, ArgTest] = {}
 
     def learn(e: ast.AST) -> None:
@@ -305,6 +323,96 @@ def r2(ctx: RuleCtx) -> None:
 # ---------------------------------------------------------------------------------------------
 DEDUP_KINDS = ('Dedup.NO_DEDUP', 'Dedup.UNIQUE', 'Dedup.OVERRIDDEN')
 MUT = {'append', 'appendleft', 'extend', 'extendleft', 'insert', 'add', 'update'}
+
+
+KEEP_CALLS = {'_can_dedup', '_should_prepend', 'flush_pre_post'}     # vocabulary of the reference, never inlined
+
+
+def _inline(mod: Module, cls: str, fn: T.Any, depth: int = 2) -> T.Any:
+    """Copy of `fn` with calls `self.helper(...)` of private helpers of the same class folded in:
+    * a helper whose body is a single `return <expr>` is substituted as an expression,
+    * a statement `self.helper(...)` whose helper never returns a value is replaced by the helper's statements
+      (parameters substituted; helpers whose locals clash with the caller's are left alone).
+    Extracting a block into a private method and calling it on `self` does not change what the method does."""
+    import copy
+    meths = mod.methods(cls)
+
+    def body_of(h: T.Any) -> T.List[ast.stmt]:
+        b = list(h.body)
+        if b and isinstance(b[0], ast.Expr) and isinstance(b[0].value, ast.Constant) and isinstance(b[0].value.value, str):
+            b = b[1:]
+        return b
+
+    def helper(call: ast.AST) -> T.Optional[T.Any]:
+        if isinstance(call, ast.Call) and isinstance(call.func, ast.Attribute) and attr_chain(call.func.value) == 'self' and not call.keywords:
+            n = call.func.attr
+            if n.startswith('_') and not n.endswith('__') and n not in KEEP_CALLS and n in meths and n != fn.name:
+                h = meths[n]
+                ps = [a.arg for a in h.args.args]
+                if ps[:1] == ['self'] and len(ps) - 1 == len(call.args) and not h.args.vararg and not h.args.kwarg and not h.args.kwonlyargs \
+                        and not any(isinstance(a, ast.Starred) for a in call.args) and not h.decorator_list:
+                    return h
+        return None
+
+    def subst(node: ast.AST, h: T.Any, call: ast.Call) -> ast.AST:
+        mapping = {a.arg: v for a, v in zip(h.args.args[1:], call.args)}
+
+        class S(ast.NodeTransformer):
+            def visit_Name(self, n: ast.Name) -> ast.AST:
+                if n.id in mapping and isinstance(n.ctx, ast.Load):
+                    return ast.copy_location(copy.deepcopy(mapping[n.id]), n)
+                return n
+        assigned = {n.id for n in ast.walk(node) if isinstance(n, ast.Name) and isinstance(n.ctx, ast.Store)}
+        if assigned & set(mapping):
+            raise Undecided(f'{cls}.{h.name} rebinds a parameter; not inlined')
+        return S().visit(copy.deepcopy(node))
+
+    cur = copy.deepcopy(fn)
+    for _ in range(depth):
+        changed = False
+        caller_locals = {n.id for n in ast.walk(cur) if isinstance(n, ast.Name) and isinstance(n.ctx, ast.Store)}
+
+        class E(ast.NodeTransformer):
+            def visit_Call(self, c: ast.Call) -> ast.AST:
+                nonlocal changed
+                self.generic_visit(c)
+                h = helper(c)
+                if h is not None:
+                    b = body_of(h)
+                    if len(b) == 1 and isinstance(b[0], ast.Return) and b[0].value is not None:
+                        changed = True
+                        return ast.copy_location(subst(b[0].value, h, c), c)
+                return c
+
+        def splice(stmts: T.List[ast.stmt]) -> T.List[ast.stmt]:
+            nonlocal changed
+            out: T.List[ast.stmt] = []
+            for st in stmts:
+                for field in ('body', 'orelse', 'finalbody'):
+                    sub = getattr(st, field, None)
+                    if isinstance(sub, list) and sub and isinstance(sub[0], ast.stmt):
+                        setattr(st, field, splice(sub))
+                for hd in getattr(st, 'handlers', []) or []:
+                    hd.body = splice(hd.body)
+                h = helper(st.value) if isinstance(st, ast.Expr) else None
+                if h is not None:
+                    b = body_of(h)
+                    if b and isinstance(b[-1], ast.Return) and b[-1].value is None:
+                        b = b[:-1]
+                    rets = [n for x in b for n in ast.walk(x) if isinstance(n, (ast.Return, ast.Yield, ast.YieldFrom))]
+                    locs = {n.id for x in b for n in ast.walk(x) if isinstance(n, ast.Name) and isinstance(n.ctx, ast.Store)}
+                    if not rets and not (locs & caller_locals) and b:
+                        out.extend(subst(x, h, st.value) for x in b)  # type: ignore[arg-type,misc]
+                        changed = True
+                        continue
+                out.append(st)
+            return out
+        cur = E().visit(cur)
+        cur.body = splice(cur.body)
+        ast.fix_missing_locations(cur)
+        if not changed:
+            break
+    return cur
 
 
 def _eff(st: ast.AST) -> T.Optional[str]:
@@ -487,7 +595,7 @@ def _loop_facts(ctx: RuleCtx, mod: Module, qn: str, fn: T.Any, loop: ast.For) ->
 
 def r3(ctx: RuleCtx) -> None:
     mod = ctx.repo.module(ARGLIST)
-    fn = mod.func(f'{ROOT}.flush_pre_post')
+    fn = _inline(mod, ROOT, mod.func(f'{ROOT}.flush_pre_post'))
     qn = f'{ROOT}.flush_pre_post'
     _queues_emptied(ctx, mod, qn, fn)
 
@@ -589,7 +697,7 @@ def r3(ctx: RuleCtx) -> None:
 
 def _iadd(ctx: RuleCtx, mod: Module) -> None:
     qn = f'{ROOT}.__iadd__'
-    fn = mod.func(qn)
+    fn = _inline(mod, ROOT, mod.func(qn))
     loops = [s for s in fn.body if isinstance(s, ast.For)]
     if len(loops) != 1 or not isinstance(loops[0].target, ast.Name):
         raise Undecided(f'{qn}: expected one loop over the added arguments')
